@@ -17,7 +17,8 @@ print(len(vcs), "VCs;", len(exits), "exits")
 sel = [x for x in vcs if sys.argv[2] in x[0]]
 lim = int(sys.argv[3]) if len(sys.argv) > 3 else 1
 for name, hyps, goal, note in sel:
-    r = prover.check_valid(S.lit_axioms() + hyps, goal, rlimit=12000000, cvc5_timeout_s=5)
+    from vf.pyvc.verify import prove_vc
+    r, _t = prove_vc(S.lit_axioms(), hyps, goal)
     print("==", name, r.status, "proved" if r.proved else "NOT", f"{r.time_s:.2f}s")
     if not r.proved and lim > 0:
         lim -= 1
